@@ -298,7 +298,7 @@ func (c *FnCtx) binop(st *State, op token.Token, x, y Val, resT types.Type, pos 
 			if _, isSlice := x.T.Underlying().(*types.Slice); isSlice {
 				// only comparison with nil is legal
 				other := x.E
-				if x.E == "nil-slice" {
+				if x.E == nilSlice {
 					other = y.E
 				}
 				e = "(= (s-arr " + other + ") 0)"
